@@ -3,7 +3,7 @@
    Print Assumptions. *)
 From Coq Require Import ZArith List Bool Arith Permutation.
 Require Import SkV.C12.Model SkV.C12.Own SkV.C12.Cutoff SkV.C12.Proofs SkV.C12.BridgeOwn
-  SkV.C12.BridgeCutoff.
+  SkV.C12.BridgeCutoff SkV.C12.Seeds SkV.C12.BridgeSeeds.
 Import ListNotations.
 
 (* ---- (i) ownership: "never modify the caller's data and never change the estimator" ---- *)
@@ -195,6 +195,17 @@ Theorem C12_seeded_fit_is_function_of_seed :
   snd (fit_intervals randint mk (Some seed) n_est k mi sl w1) = w1.
 Proof. exact seeded_fit_function_of_seed. Qed.
 Print Assumptions C12_seeded_fit_is_function_of_seed.
+
+(* the seeded estimators whose regenerated seed-flow fact holds (the random_state parameter
+   reaches the generator unchanged on every path): every seed, 0 included, arrives as it is, and
+   the sampled intervals do not depend on the world the fit runs in *)
+Theorem C12_seeded_estimators_fit_is_function_of_seed : forall name, In (name, true) seed_flows ->
+  forall (St : Type) (randint : Z -> St -> option (Z * St)) (mk : Z -> St)
+         seed n_est k mi sl (w1 w2 : world St),
+  fst (fit_intervals randint mk (forwarded true (Some seed)) n_est k mi sl w1) =
+  fst (fit_intervals randint mk (forwarded true (Some seed)) n_est k mi sl w2).
+Proof. exact seeded_estimators_fit_is_function_of_seed. Qed.
+Print Assumptions C12_seeded_estimators_fit_is_function_of_seed.
 
 (* predict with a stream built per call from the seed: the estimator is unchanged and a repeat -
    also after other predict calls - picks the same *)
